@@ -178,6 +178,10 @@ def check_c11(pid, tier, seed, replay):
                 what = ""
                 if ev["ev"] == "Twin":
                     what = "%s by %s via %s: %s" % (ev["ops"][0]["m"], ev["caller"], ev["via"], json.dumps(ev["ops"])[:400])
+                    if ev.get("seq"):
+                        what += " | message: " + ", ".join(
+                            ("%s(%s,%s)=%d native before/after tx %d/%d" % (q["m"], q["d"], q["v"], q["cpc"], q["natPre"], q["natPost"]))
+                            if q["t"] == "view" else ev["ops"][q["i"] - 1]["m"] for q in ev["seq"])
                 rp = vlib.save_replay(pid, tid, [(bad, "trace.ndjson")],
                                       "law %s/%s broken at line %d of this trace (seeds %s); re-check: bin/check %s --replay <this dir>\n%s"
                                       % (group, detail, lineno, seeds, pid, what))
@@ -233,6 +237,11 @@ def check_c11(pid, tier, seed, replay):
         v.cov["forged_message_combos_distinct"] = len(forged)
         v.cov["forged_message_twins"] = sum(forged.values())
         v.cov["signed_valid_twins"] = sum(n for k, n in grid.items() if _valid_combo(k))
+        seqviews = {k: n for k, n in classes.items() if k.startswith("seqview/")}
+        v.cov["views_inside_messages_judged"] = sum(seqviews.values())
+        after = sum(n for k, n in seqviews.items() if k.endswith("/after-mutations"))
+        if after < 6 and not v.violations:
+            raise Infra("the run judged only %d views made after a state-changing call of the same message" % after)
         funded = sum(n for k, n in classes.items() if k.startswith("transfer-funded-by-claimed-rewards/"))
         v.cov["transfer_funded_by_claimed_rewards_twins"] = funded
         if funded < 4 and not v.violations:
